@@ -85,6 +85,7 @@ type World struct {
 	CloseReturned bool
 	TaskG  []*simrt.G
 	pending []Violation // violations found by per-step hooks
+	StableReason string
 }
 
 var errStop = errors.New("stopped by a per-step oracle")
